@@ -4,7 +4,8 @@
    8/16-bit element types: exhaustive (finite domain).  32-bit carry/borrow/multiplication: all operands (lia/nia).
    bitfieldExtract unsigned: all widths, values and fields below 32 bits.  NOT theorems for 32/64-bit element types:
    bitCount, findLSB, findMSB, bitfieldReverse, bitfieldInsert (correspondence + oracle only).
-   Refuted statements = known findings (known_findings.txt): usubBorrow, signed bitfieldExtract, 64-bit wide fields. *)
+   Refuted statements = known findings (known_findings.txt): usubBorrow, signed bitfieldExtract.  (Fields of 32 bits and more of a
+   64-bit element were a third one until the mask of bitfieldExtract was computed in the unsigned element type.) *)
 Require Import ZArith List Bool.
 Import ListNotations.
 From GLMM Require Import Half IntFn.
@@ -29,7 +30,7 @@ Proof. exact P_C05_general.umulExtended_correct. Qed.
 Theorem C05_imulExtended : forall x y, - 2 ^ 31 <= x < 2 ^ 31 -> - 2 ^ 31 <= y < 2 ^ 31 ->
   let '(m, l) := imulExtended x y in m * 2 ^ 32 + l mod 2 ^ 32 = x * y /\ - 2 ^ 31 <= l < 2 ^ 31 /\ - 2 ^ 31 <= m < 2 ^ 31.
 Proof. exact P_C05_general.imulExtended_correct. Qed.
-Theorem C05_bitfieldExtract_unsigned_all_widths : forall w v off bits, (w = 8 \/ w = 16 \/ w = 32 \/ w = 64) -> 0 <= v < 2 ^ w -> 0 <= off -> 0 <= bits < 32 -> off + bits <= w ->
+Theorem C05_bitfieldExtract_unsigned_all_widths : forall w v off bits, (w = 8 \/ w = 16 \/ w = 32 \/ w = 64) -> 0 <= v < 2 ^ w -> 0 <= off -> 0 <= bits -> off + bits <= w ->
   bitfieldExtract false w v off bits = extract_spec false w v off bits.
 Proof. exact P_C05_general.bitfieldExtract_unsigned. Qed.
 (* usubBorrow: full statement is false of the faithful model; what holds *)
@@ -41,8 +42,6 @@ Theorem C05_usubBorrow_computes_y_minus_x : forall x y, 0 <= x < 2 ^ 32 -> 0 <= 
 Proof. exact P_C05_general.usubBorrow_characterised. Qed.
 Theorem C05_bitfieldExtract_signed_refuted : exists v off bits, in_T true 32 v = true /\ 0 <= off /\ 0 <= bits /\ off + bits <= 32 /\ bitfieldExtract true 32 v off bits <> extract_spec true 32 v off bits.
 Proof. exact P_C05_general.bitfieldExtract_signed_refuted. Qed.
-Theorem C05_bitfieldExtract_64bit_wide_field_refuted : exists v off bits, 0 <= v < 2 ^ 64 /\ 0 <= off /\ 32 <= bits /\ off + bits <= 64 /\ bitfieldExtract false 64 v off bits <> extract_spec false 64 v off bits.
-Proof. exact P_C05_general.bitfieldExtract_64bit_wide_field_refuted. Qed.
 Print Assumptions C05_16bit_all_values.
 Print Assumptions C05_imulExtended.
 Print Assumptions C05_bitfieldExtract_unsigned_all_widths.
